@@ -129,6 +129,7 @@ type c23Run struct {
 	d     *c23DS
 	p     *pinner
 	ids   map[string]int
+	quiet bool // no State event after complete calls (large runs)
 }
 
 func c23NewRun(nc int) *c23Run {
@@ -305,7 +306,9 @@ func (r *c23Run) full(o c23Op) int {
 	r.begin(o)
 	res := r.exec(o)
 	vEmit(M{"ev": "End", "res": res})
-	r.state()
+	if !r.quiet {
+		r.state()
+	}
 	return r.d.writes - w0
 }
 
@@ -415,6 +418,32 @@ func c23RandOp(rng interface{ Intn(int) int }, nc int) c23Op {
 	}
 }
 
+// c23Big: more pin records than rebuildIndexes checks between two flushes (syncRepairFrequency = 50).
+// npins complete pins, one more pin cut after its record was written (k writes), then the recovery,
+// uncut and cut after each of its writes.  Which records the datastore query returns first is up to
+// the map, hence several attempts.
+func c23Big(npins, attempts int) {
+	for a := 0; a < attempts; a++ {
+		for _, k := range []int{2, 3} {
+			for _, k2 := range []int{-1, 0, 1} {
+				r := c23NewRun(npins + 1)
+				r.quiet = true
+				for i := 1; i <= npins; i++ {
+					r.full(c23Op{Op: "PinRec", C: i, Name: "", Via: 1})
+				}
+				o := c23Op{Op: "PinRec", C: npins + 1, Name: "a", Via: 1}
+				r.d.remaining = k
+				r.begin(o)
+				r.exec(o)
+				r.crashAndReopen(k2)
+				r.quiet = false
+				r.full(c23Op{Op: "Unpin", C: 1, Flag: true})
+				r.p.Close()
+			}
+		}
+	}
+}
+
 func TestVerifC23(t *testing.T) {
 	defer vFlush()
 	if vMode() != "record" {
@@ -424,6 +453,10 @@ func TestVerifC23(t *testing.T) {
 	rng := vRand()
 	nc := 3
 	nhist, hlen, second := vEnvInt("C23_HIST", 3), vEnvInt("C23_LEN", 6), vEnvInt("C23_SECOND", 0)
+	if n := vEnvInt("C23_BIG", 0); n > 0 {
+		c23Big(vEnvInt("C23_BIGPINS", 100), n)
+		return
+	}
 	for h := 0; h < nhist; h++ {
 		hist := make([]c23Op, hlen)
 		for i := range hist {
